@@ -602,7 +602,8 @@ func (c *ExpressionParser) performSyntaxAnalysisAtLevel6() error {
 		for true {
 			c.moveToNextToken()
 			token = c.getCurrentToken()
-			if token == nil || token.Type() == RightBrace {
+			// Only an empty parameter list may end right after '(' - not after ','
+			if token == nil || (token.Type() == RightBrace && paramCount == 0) {
 				break
 			}
 
